@@ -333,6 +333,20 @@ fn main() {
             cases.push((json!({"family": "oversize", "position": pos, "message_bytes": big}), vec![f], vec![]));
         }
     }
+    // (c2) the event above the limit consists of 2-, 3- and 4-byte characters behind 0..w-1 ASCII bytes (whatever is done
+    // with its text on the way out - logged, truncated, measured - meets a character boundary at every alignment)
+    for (ch, wd) in [("\u{e9}", 2usize), ("\u{20ac}", 3), ("\u{1f600}", 4)] {
+        for k in 0..wd {
+            let mut f: Vec<Ev> = (0..2).map(|i| ev(format!("normal {i}"), "bigmb")).collect();
+            let mut e = ev(format!("{}{}", "a".repeat(k), ch.repeat(70 * 1024 / wd)), "bigmb");
+            e.oversize = rendered_size(std::slice::from_ref(&e)) >= LIMIT;
+            f.insert(1, e);
+            cases.push((json!({"family": "oversize-multibyte", "char_width": wd, "ascii_prefix": k}), vec![f], vec![]));
+        }
+    }
+    // (c3) files without events, alone and between files with events
+    cases.push((json!({"family": "empty-file", "files": "[]"}), vec![vec![]], vec![]));
+    cases.push((json!({"family": "empty-file", "files": "[A,B] [] [C]"}), vec![vec![ev("A".into(), "empty"), ev("B".into(), "empty")], vec![], vec![ev("C".into(), "empty")]], vec![]));
     // (d) upload failure patterns: every pattern of length <= 5 over {200, 500} (+ reset variants)
     let maxp = if thorough { 5 } else { 3 };
     for len in 1..=maxp {
@@ -440,7 +454,7 @@ fn main() {
     res.cov("measured_envelope_bytes", envelope as u64);
     res.cov("measured_bytes_per_empty_event", per_event as u64);
     res.cov("exhaustive", hung == 0);
-    res.cov("rule", format!("event files x {{1,2}} files x event counts x 10 content classes (markup, CDATA terminators, nested CDATA, 2/3/4-byte UTF-8, attribute-injection text, ...); batches of 1-3 events whose rendered size is exactly limit-2..limit+1 (envelope measured: {envelope} + {per_event} per event), with and without small events behind; one event above the limit first/middle/last; every upload answer pattern of length <= {maxp} over {{200, 500}} plus connection resets; each run = one cycle of the real EventReader on a paused clock; bodies parsed with xml-rs (document, then each CDATA payload)"));
+    res.cov("rule", format!("event files x {{1,2}} files x event counts x 10 content classes (markup, CDATA terminators, nested CDATA, 2/3/4-byte UTF-8, attribute-injection text, ...); batches of 1-3 events whose rendered size is exactly limit-2..limit+1 (envelope measured: {envelope} + {per_event} per event), with and without small events behind; one event above the limit first/middle/last, also made of 2-/3-/4-byte characters at every alignment; files without events; every upload answer pattern of length <= {maxp} over {{200, 500}} plus connection resets; each run = one cycle of the real EventReader on a paused clock; bodies parsed with xml-rs (document, then each CDATA payload)"));
     res.assume("event text is free of control characters (as the statement restricts)");
     res.assume("goal state / shared config / instance documents served by the mock are the samples embedded in the repository's own unit tests");
     std::process::exit(res.finish());
